@@ -3,19 +3,24 @@
    by the specification S inside the guard. *)
 From C10 Require Import Model Spec Proofs.
 
-Definition event_eqb (a b : event) : bool :=
-  match a, b with Ev x, Ev y => N.eqb x y | EvEnd x, EvEnd y => N.eqb x y | _, _ => false end.
-Definition result_eqb (a b : result) : bool :=
-  match a, b with
-  | RVal x, RVal y => N.eqb x y
-  | RNil, RNil | RNoApplicable, RNoApplicable | RNoNext, RNoNext | RNoPrimary, RNoPrimary
-  | ROutOfFuel, ROutOfFuel | ROther, ROther => true
-  | _, _ => false
-  end.
 Fixpoint list_eqb {A} (eqb : A -> A -> bool) (a b : list A) : bool :=
   match a, b with
   | [], [] => true
   | x :: a', y :: b' => eqb x y && list_eqb eqb a' b'
+  | _, _ => false
+  end.
+Definition event_eqb (a b : event) : bool :=
+  match a, b with
+  | Ev x v, Ev y w => N.eqb x y && list_eqb Bool.eqb v w
+  | EvNmp x, EvNmp y => Bool.eqb x y
+  | EvEnd x, EvEnd y => N.eqb x y
+  | _, _ => false
+  end.
+Definition result_eqb (a b : result) : bool :=
+  match a, b with
+  | RVal x, RVal y => N.eqb x y
+  | RNil, RNil | RNoApplicable, RNoApplicable | RNoNext, RNoNext
+  | ROutOfFuel, ROutOfFuel | ROther, ROther => true
   | _, _ => false
   end.
 Definition out_eqb (a b : out) : bool :=
@@ -32,18 +37,21 @@ Fixpoint spec_violation (ct : ctable) (tbl : list (key * combo)) (ops : list op)
   match ops, obs with
   | o :: ops', ob :: obs' =>
       (match o with
-       | OpCall cs => guardb ct tbl cs && negb (out_eqb ob (Some (spec_call ct tbl cs)))
+       | OpCall cs v => guardb ct tbl cs && negb (out_eqb ob (Some (spec_call ct tbl cs v)))
        | _ => false
        end) || spec_violation ct (spec_step tbl o) ops' obs'
   | _, _ => false
   end.
 
-(* 0: model = observed;  1: model <> observed, no in-guard violation of S found;
-   2: model <> observed and the observed outputs violate S inside the guard *)
+(* 0: model = observed and no in-guard call of it differs from S;
+   1: model <> observed, no in-guard violation of S found;
+   2: model <> observed and the observed outputs violate S inside the guard;
+   3: self-check: model = observed but an in-guard call differs from S (contradicts C10_run_eq_spec_partial) *)
 Definition check_case (c : case) : N :=
   let m := snd (run (k_ct c) (new_aux (k_n c)) (k_ops c)) in
-  if list_eqb out_eqb m (k_obs c) then 0%N
-  else if spec_violation (k_ct c) [] (k_ops c) (k_obs c) then 2%N else 1%N.
+  let viol := spec_violation (k_ct c) [] (k_ops c) (k_obs c) in
+  if list_eqb out_eqb m (k_obs c) then (if viol then 3%N else 0%N)
+  else if viol then 2%N else 1%N.
 
 Fixpoint check_all_from (i : N) (cs : list case) : list (N * N) :=
   match cs with
@@ -57,7 +65,7 @@ Definition check_all := check_all_from 0.
 Fixpoint in_guard_calls (ct : ctable) (tbl : list (key * combo)) (ops : list op) : N :=
   match ops with
   | [] => 0
-  | o :: ops' => ((match o with OpCall cs => if guardb ct tbl cs then 1 else 0 | _ => 0 end)
+  | o :: ops' => ((match o with OpCall cs _ => if guardb ct tbl cs then 1 else 0 | _ => 0 end)
                  + in_guard_calls ct (spec_step tbl o) ops')%N
   end.
 Definition guard_count (cs : list case) : N :=
